@@ -137,10 +137,10 @@ class HandleRequest:
 
 # ------------------------------------------------------------------------------------------------ dispatch (C01 C02 C03)
 import json
-from spec.prims import bound_method, has_type
+from spec.prims import bound_method, gather_calls, has_type
 from spec.server import code_of, wf_error_obj, wf_response_obj
 from spec.jsonrpc import valid_request_obj
-from pjrpc.server.dispatcher import JSONEncoder
+from pjrpc.server.dispatcher import AsyncDispatcher, JSONEncoder
 
 
 def dispatcher_ok(d):
@@ -155,6 +155,7 @@ def dispatcher_ok(d):
 @contract('pjrpc.server.dispatcher:Dispatcher.dispatch', also=('pjrpc.server.dispatcher:AsyncDispatcher.dispatch',),
           props=['C01', 'C02', 'C03'])
 class Dispatch:
+    clause_props = {'ensures_sequential_mode': ['C10']}
     types = {'self': 'pjrpc.server.dispatcher:BaseDispatcher', 'request_text': 'str', 'context': 'any'}
     raises_only = ()            # C01: the dispatcher never raises
     modifies = ('$trace',)
@@ -192,6 +193,14 @@ class Dispatch:
         if not isinstance(doc, dict):
             return True
         return len(result[1]) == 1 and same(result[1][0], code_of(doc))
+
+    def ensures_sequential_mode(self, request_text, context, result):
+        # C10: with concurrent batch execution switched off the asynchronous dispatcher never enters
+        # asyncio.gather - the only place where element handlers can be in flight together; the elements are
+        # awaited one after another in request order (a list comprehension over the request)
+        if not isinstance(self, AsyncDispatcher):
+            return True
+        return self._concurrent_batch or gather_calls() == old(gather_calls())
 
     def ensures_rejected(self, request_text, context, result):
         # C03: text that is not JSON -> -32700; JSON that is not a valid request / non-empty valid batch -> -32600;
